@@ -3009,6 +3009,12 @@ PPL::Grid::wrap_assign(const Variables_Set& vars,
       const Variable x(*i);
       // Find the frequency and a value for `x' in `gr'.
       if (!gr.frequency_no_check(x, f_n, f_d, v_n, v_d)) {
+        // `x' can take any value in `gr', but it can still be related
+        // to the other dimensions: if overflow wraps, the points whose
+        // value for `x' is shifted by the `wrap_frequency' are needed.
+        if (o == OVERFLOW_WRAPS) {
+          add_grid_generator(parameter(wrap_frequency * x));
+        }
         continue;
       }
       if (f_n == 0) {
